@@ -153,6 +153,8 @@ pub enum Stop {
 pub struct WindowReport {
     pub events: Vec<String>,
     pub changes: usize,
+    /// `Some(ok)` when the window led to a recompile: did `compile` (incl. writing) succeed
+    pub compiled: Option<bool>,
     pub watch: Outcome,
     pub fresh: Outcome,
 }
@@ -332,8 +334,9 @@ impl Session {
 
         let config = self.config.clone();
         let state = &mut self.state;
-        let processed = vcore::catch_panic(|| -> Result<usize, Stop> {
+        let mut body = || -> Result<(usize, Option<bool>), Stop> {
             let mut n = 0;
+            let mut compiled = None;
             if let Some(changes) = categorize_and_filter_events(&events, &config) {
                 n = changes.len();
                 if has_config_changes(&changes) {
@@ -346,14 +349,16 @@ impl Session {
                         format!("update_sources returned Err (handle_watch_command returns, the watcher stops):\n{msg}"),
                     )));
                 }
-                let _ = compile::<Profile>(state);
+                compiled = Some(compile::<Profile>(state).is_ok());
             }
             if gc {
                 state.db.run_garbage_collection();
             }
-            Ok(n)
-        });
-        let changes = match processed {
+            Ok((n, compiled))
+        };
+        // VERIF_NO_CATCH: let a panic of the code under test kill the process (with backtrace)
+        let processed = if std::env::var("VERIF_NO_CATCH").is_ok() { Ok(body()) } else { vcore::catch_panic(body) };
+        let (changes, compiled) = match processed {
             Ok(Ok(n)) => n,
             Ok(Err(stop)) => return Err(stop),
             Err(p) => return Err(Stop::Fail(Fail::new(format!("panic:{}", panic_class(&p)), format!("panic in the watch loop body: {p}")))),
@@ -370,7 +375,7 @@ impl Session {
             // a fresh batch compile that panics is C08's business, not a watch-mode divergence
             Err(p) => return Err(Stop::Inconclusive(format!("fresh-compile-panic: {p}"))),
         };
-        Ok(WindowReport { events: described, changes, watch, fresh })
+        Ok(WindowReport { events: described, changes, compiled, watch, fresh })
     }
 
     /// After a successful recompile the artifact directory holds exactly the artifacts (files the
